@@ -13,6 +13,14 @@ def run(v, tier, replay):
     behs = T.behaviours(v, 6000 if thorough else 1200)
     res, err = T.replay(behs)
     if res is None:
+        # a panic inside the repository's transport code while datagrams are delivered ends every session of the
+        # process: nothing written afterwards is delivered ("complete")
+        pan = [l for l in err.split("\n") if l.startswith("panic:") or "fatal error" in l]
+        where = [l.strip().split(" ")[0].split(lib.REPO_MARK)[-1] for l in err.split("\n") if lib.REPO_MARK in l and "/harness/" not in l]
+        if pan and where:
+            v.violation("an endpoint crashed while datagrams of a replayed behaviour were delivered: %s | %s" % (pan[0][:120], where[0]),
+                        "TLC behaviours (deliveries, mutations, truncations, forgeries) replayed on a real client/server pair", dict(stderr=err))
+            return
         raise lib.Inconclusive("trreplay failed: " + err)
     nun = T.judge(v, "C03", behs, res)
     # write sizes on a faithful network: recorded from the real code, judged by TLC (Trace_HopTransport)
@@ -36,6 +44,9 @@ def run(v, tier, replay):
         e = events[int(m.group(1)) - 1]
         if e["ev"] == "write":
             sig = "Write(%d bytes) by %s returned %d, sent %d packet(s) carrying %d bytes, peer read %d bytes (intact=%s)" % (e["n"], e["who"], e["ret"], e["pkts"], e["sentbytes"], e["read"], e["intact"])
+        elif e["ev"] == "latehs":
+            sig = "after %d late cop%s of the session's own handshake datagrams (%s, hidden=%s) and the server's handshake timeout, %d of %d messages written on the established session were delivered%s" % (
+                e["copies"], "y" if e["copies"] == 1 else "ies", e["which"], e["hidden"], e["delivered"], e["sent"], " (%s)" % e["note"] if e["note"] else "")
         elif e["ev"] == "longrun":
             sig = "long session: %d sent, %d delivered, %d of %d replayed datagrams delivered again, peer address moved %d times" % (e["sent"], e["delivered"], e["redelivered"], e["replays"], e["moved"])
         else:
